@@ -834,6 +834,7 @@ def check_property(prop, tier="quick", seed=0):
     undecided = []
     with ThreadPoolExecutor(max_workers=int(os.environ.get("VERIF_JOBS", "8"))) as ex:
         futs = {}
+        bat_fut = ex.submit(run_battery, prop, tier)
         for u in units:
             for s in seeds:
                 futs[(u, s)] = ex.submit(_safe_verify, u, s, None if tier == "quick" else 20, s == seeds[0])
@@ -843,6 +844,7 @@ def check_property(prop, tier="quick", seed=0):
                 undecided.append(f"{k[0]}: {r}")
             else:
                 results.append((k, r))
+        bat = bat_fut.result()
     known, fixed = load_known()
     violations, known_hits = [], []
     functions, obligations, discharged = [], 0, 0
@@ -901,6 +903,20 @@ def check_property(prop, tier="quick", seed=0):
         if len(set(c > 0 for c in counts)) > 1:
             unstable.append(u)
             undecided.append(f"{u}: verdict differs between SMT seeds (unstable proof)")
+    # ---- bounded stand-in / witness search: the boundary battery on the real code
+    bat_viol = []
+    for f in bat["failing"]:
+        w = f["witness"]
+        key = w.get("template") or json.dumps(w.get("templates") or w.get("kind"))
+        cl = "battery:" + hashlib.sha256(json.dumps(w, sort_keys=True).encode()).hexdigest()[:10]
+        kn = [k for k in known if k["property"] == prop and k["clause"].startswith("battery") and k["item"] in (cl, "*") and (k["clause"] == "battery" or k["clause"] == cl)]
+        v = {"unit": "battery", "items": [], "clause": cl, "message": "real code contradicts the property on a concrete input",
+             "where": [{"what": "input", "file": None, "line": None, "label": w.get("note", ""), "text": str(key)[:200]}],
+             "rendered": f"observed on real code: {f['observed']}\nexpected: {json.dumps(w.get('expect'))}", "seed": seed, "witness": w, "observed": f["observed"]}
+        if kn:
+            known_hits.append((v, kn[0]))
+        else:
+            bat_viol.append(v)
     extra = {}
     if tier == "thorough":
         extra = thorough_extras(prop, units, undecided, violations)
@@ -920,32 +936,55 @@ def check_property(prop, tier="quick", seed=0):
             "extraction_edits": edits,
             "samples": samples or [{"note": "safety obligations only (no tagged clause)"}],
             "known_findings_reported": [k["what"] for _, k in known_hits],
+            "bounded": [{
+                "kind": "boundary battery: concrete inputs run on the real code through replay/ with the expectation the property statement dictates (tools/battery.py); NOT a proof, never counted in obligations",
+                "stands_in_for": BOUNDED_STANDS_IN.get(prop, "functions the property depends on that are not under contract"),
+                "bound": BATTERY_BOUNDS.get(prop, ""),
+                "ran": bat.get("ran"), "witnesses": bat.get("witnesses"), "failing": len(bat.get("failing", [])), "wall_s": bat.get("wall"), "note": bat.get("note"),
+            }],
             "undecided": undecided,
             **extra,
         },
         "assumptions": assumptions_text(),
         "wall_s": round(wall, 2),
-        "violations": len(violations),
+        "violations": len(violations) + len(bat_viol),
     }
     os.makedirs(os.path.join(VERIF, "evidence"), exist_ok=True)
     with open(os.path.join(VERIF, "evidence", f"{prop}.json"), "w") as f:
         json.dump(ev, f, indent=1)
     for v, k in known_hits:
         print(f"KNOWN-FINDING: property={prop} {k['what']} [clause {k['clause']} of {k['item']}]")
-    if violations:
+    if violations or bat_viol:
         os.makedirs(os.path.join(WORK, "replay"), exist_ok=True)
+        first_w = bat_viol[0] if bat_viol else None
         for v in violations:
             rp = os.path.join(WORK, "replay", f"{prop}-{v['unit']}-{re.sub(r'[^A-Za-z0-9_]+', '_', v['clause'])}.json")
-            witness = find_witness(prop, v)
+            witness = first_w["witness"] if first_w else None
             with open(rp, "w") as f:
                 json.dump({"property": prop, "obligation": {"unit": v["unit"], "items": v["items"], "clause": v["clause"],
                                                             "verifier_message": v["message"], "where": v["where"]},
                            "verifier": "verus 0.2026.09.13 / z3", "verifier_output": v["rendered"],
-                           "witness": witness}, f, indent=1)
-            tail = "" if witness and witness.get("confirmed") else " no-failing-input-found"
+                           "witness": witness, "witness_source": "boundary battery (first input of this property's battery that the real code gets wrong)" if witness else None,
+                           "observed": first_w["observed"] if first_w else None}, f, indent=1)
+            tail = "" if witness else " no-failing-input-found"
             print(f"VIOLATION property={prop} replay={rp}{tail}")
             for w in v["where"]:
                 print(f"   {w['what']}: {w.get('file')}:{w.get('line')}: {w.get('label') or ''} {w.get('text', '')[:160]}")
+        if not violations:
+            # no obligation failed (the code concerned is not under contract, or its unit is undecided): report the
+            # concrete failing inputs themselves, at most three
+            for v in bat_viol[:3]:
+                rp = os.path.join(WORK, "replay", f"{prop}-{re.sub(r'[^A-Za-z0-9_]+', '_', v['clause'])}.json")
+                with open(rp, "w") as f:
+                    json.dump({"property": prop, "obligation": {"unit": "bounded stand-in (boundary battery)", "clause": v["clause"],
+                                                                "verifier_message": v["message"], "undecided_units": undecided},
+                               "verifier": "none (bounded stand-in): the input below was run on the real code",
+                               "verifier_output": v["rendered"], "witness": v["witness"], "observed": v["observed"]}, f, indent=1)
+                print(f"VIOLATION property={prop} replay={rp}")
+                print(f"   input: {v['where'][0]['text']}")
+                print(f"   {v['rendered'].splitlines()[0][:200]}")
+            if len(bat_viol) > 3:
+                print(f"   (+{len(bat_viol) - 3} more failing battery inputs)")
         if undecided:
             for u in undecided:
                 print(f"   (also undecided: {u})")
@@ -963,6 +1002,29 @@ def _safe_verify(u, seed, rlimit, do_canary):
         return verify_unit(u, seed=seed, rlimit=rlimit, do_canary=do_canary)
     except Undecided as e:
         return str(e)
+
+
+BOUNDED_STANDS_IN = {
+    "C05": "For::render_to / TableRow::render_to glue, Range::evaluate, get_array, evaluate_attr, break/continue handling (state behind RefCell)",
+    "C06": "value_eq / value_cmp (veq/vcmp are uninterpreted in the contracts), query_state tables, parse_condition / CaseBlock::parse (pest tokens)",
+    "C07": "Variable::evaluate, find/try_find/augmented_get, parse_literal and literal printing",
+    "C10": "liquid::Template::render_to/render (src/template.rs), For/TableRow/IfChanged/Cycle/Capture/Include/Render::render_to, std's write_fmt/write_all",
+    "C13": "str adapters (chars/skip/take/collect are assumed in the contract), the derive-generated argument evaluation, the other string filters used in the composition law",
+    "C15": "ScalarCow::to_integer/to_float (numeric strings), f64 intrinsics floor/ceil/round and the float->int cast (uninterpreted in the contracts), Display of numbers",
+    "C18": "set_global/set_index/get_index effects through RefCell, RuntimeBuilder::build, model::find/try_find, drop of a layer",
+    "C04": "Assign/Capture/For/Include glue, persistence of assignments (RefCell), RuntimeBuilder::build",
+    "C02": "every function reached by the battery inputs of the other properties (no panic)",
+}
+BATTERY_BOUNDS = {
+    "C05": "arrays of length 0..4 x offset {absent,0,1,2,5} x limit {absent,0,1,2,5} x reversed; ranges incl. empty/descending; tablerow cols {absent,1,2,3}; break/continue at index 1..3 in two nesting levels",
+    "C06": "all ordered pairs of a 16-value pool for the ==/!=/</>/<=/>=/case laws; truthiness of each; if/elsif chains of 1..4 arms with all truth assignments; case arms incl. empty bodies; or/and grouping",
+    "C07": "arrays of length 0..3, every index in [-len-2, len+1] as literal, variable and nested path; integer literals at the 64-bit boundaries",
+    "C10": "9 templates covering text, output, for, raw, increment/decrement, cycle, if/unless/case, tablerow, ifchanged, capture/assign, include/render; sink failing at every write k, sinks accepting 1 or 3 bytes per call, short-then-fail at every call",
+    "C13": "6 strings (ASCII and non-ASCII) x offsets -7..8 x lengths {absent,1,2,5}; arrays of length 0,1,3; chain composition for 5 chains",
+    "C15": "all pairs of 18 boundary integers for 7 binary filters, abs and numeric strings on each, floor/ceil/round on k/8 for |k| <= 40",
+    "C18": "state-space exploration of push scope/sandbox/global, assign-global, set-counter to depth 2 (quick) / 3 (thorough) over all 9 base maps, every path of length 1..2 in both lookup forms, roots and counters, against a stack-of-maps model",
+    "C04": "12 scoping templates (assign/capture persistence, loop-variable lifetime, shadowing order, include arguments, counters)",
+}
 
 
 def assumptions_text():
@@ -1088,6 +1150,35 @@ def build_replay():
     if p.returncode != 0:
         return None, p.stderr[-2000:]
     return os.path.join(WORK, "replay-target", "debug", "replay"), ""
+
+
+def run_battery(prop, tier):
+    """-> dict(ran, witnesses, failing=[{witness, observed}], note)"""
+    sys.path.insert(0, os.path.join(VERIF, "tools"))
+    try:
+        import battery as bat
+    except Exception as e:
+        return {"ran": False, "note": f"battery module: {e}", "witnesses": 0, "failing": []}
+    ws = bat.battery(prop, thorough=(tier == "thorough"))
+    if not ws:
+        return {"ran": False, "note": "no battery for this property", "witnesses": 0, "failing": []}
+    t0 = time.time()
+    binp, err = build_replay()
+    if binp is None:
+        return {"ran": False, "note": "replay tool does not build against the current /repo (battery skipped): " + err[-300:], "witnesses": len(ws), "failing": []}
+    try:
+        p = subprocess.run([binp, "--stdin"], input=json.dumps(ws), capture_output=True, text=True, timeout=900)
+    except subprocess.TimeoutExpired:
+        return {"ran": False, "note": "battery timed out", "witnesses": len(ws), "failing": []}
+    lines = [l for l in p.stdout.split("\n") if l.strip()]
+    if len(lines) != len(ws):
+        return {"ran": False, "note": f"replay produced {len(lines)} results for {len(ws)} witnesses (crash?) {p.stderr[-200:]}", "witnesses": len(ws), "failing": []}
+    failing = []
+    for w, l in zip(ws, lines):
+        r = json.loads(l)
+        if not r["holds"]:
+            failing.append({"witness": w, "observed": r["observed"]})
+    return {"ran": True, "witnesses": len(ws), "failing": failing, "wall": round(time.time() - t0, 2), "note": ""}
 
 
 def cmd_replay(args):
